@@ -7,8 +7,7 @@
     class on the range of the site in the current file (for all programs/states/fuels), and
     C13_diagnostics_persist: nothing indexed afterwards removes it.  What is NOT under a theorem yet is that the
     indexer reaches every site of a Core program (`visited_all`, the coverage lemma of C05_resolution); that
-    part is covered by the correspondence and the oracle of checks/C13.py.  Missing-template-argument is only
-    under the oracle. *)
+    part is covered by the correspondence and the oracle of checks/C13.py.  *)
 From Coq Require Import List NArith Bool.
 From TG.Model Require Import CoreAst Scope BangOps Indexer.
 From TG.Proofs Require Import DiagLocal.
@@ -83,6 +82,21 @@ Proof. exact surplus_template_argument. Qed.
 Check C13_complete_surplus_template_argument : forall s targs args r,
     (length targs < length args)%nat -> check_template_args s targs args r = [(r, DTooManyArgs)].
 Print Assumptions C13_complete_surplus_template_argument.
+
+Theorem C13_complete_missing_template_argument : forall s targs args r a,
+    forallb positional args = true -> (length args <= length targs)%nat ->
+    In a targs -> lf_default a = false ->
+    (forall i a', (i < length args)%nat -> nth_error targs i = Some a' -> name_eqb (lf_name a') (lf_name a) = false) ->
+    (forall a', In a' targs -> name_eqb (lf_name a') (lf_name a) = true -> lf_default a' = false) ->
+    In (r, DArgMissing) (check_template_args s targs args r).
+Proof. exact missing_template_argument. Qed.
+Check C13_complete_missing_template_argument : forall s targs args r a,
+    forallb positional args = true -> (length args <= length targs)%nat ->
+    In a targs -> lf_default a = false ->
+    (forall i a', (i < length args)%nat -> nth_error targs i = Some a' -> name_eqb (lf_name a') (lf_name a) = false) ->
+    (forall a', In a' targs -> name_eqb (lf_name a') (lf_name a) = true -> lf_default a' = false) ->
+    In (r, DArgMissing) (check_template_args s targs args r).
+Print Assumptions C13_complete_missing_template_argument.
 
 Theorem C13_complete_incompatible_argument : forall s targs args r j vty vr a,
     (length args <= length targs)%nat ->
